@@ -169,7 +169,8 @@ func init() {
 		Explanation: "Decides structural necessary conditions of `Compile never panics, never loops, never returns holes`: (R1) every lexer loop that reads input has no feasible cycle once read() returns the end-of-input sentinel (constant propagation of 0 through the loop, folding of the pure character predicates); (R2) every explicit panic reachable from Compile is the default of an exhaustive switch, the fall-out of a complete type switch, or in a frozen trusted table; (R3) no parse function's (nil, index, nil) return reaches a conversion or dereference without a nil test; (R4) every index into the regex pattern string and into the filtered expression-token slice is dominated by a comparison with len, with the entry-parameter obligation discharged at every call site; (R5) a typestate with function summaries over the token parser: an index may equal len(tokens) only when it leaves a scan loop that compares its counter with len(tokens) and has no exit on the EOF kind; such an index must pass a `< len(tokens)` test before it indexes the list or reaches a callee that does; (R6) TokenType.PP is exhaustive and error constructors never get a nil token; (R7) the generator's and checker's type switches turn an unmatched or nil node into an error; (R8) the API functions returning (*Vore, error) return a program built on that path, a non-nil error, or both results of a function held to the same rule - never (nil, nil); (R9) every HexToAscii call is dominated by two IsHex tests; (R10) every loop of the generator and checker is counted or a range iteration. " +
 			"Does NOT decide stack depth on deeply nested input nor memory/time of large unrolled loops (`exactly 1000000000 'a'`)." +
 			" Round 4: (R11) every mutex locked in the compile path is released on every path out of the function; (R12) variable indexes into fixed-size tables are bounded by the table length." +
-			" Round 5: (R13) getTokens stops on every EOF token.",
+			" Round 5: (R13) getTokens stops on every EOF token." +
+			" Round 6: (R14) every integer division between source text and program has a divisor that is a non-zero constant or was tested against zero.",
 		Assumptions: append([]string{"tokens always ends in an EOF token and consumeIgnoreableTokens never steps past it (axioms A1, A2)", "bufio.Reader's end of input is sticky (A3)"}, commonAssumptions...),
 		Rules: []RuleFn{
 			{Name: "C08.R1", Run: func(c *Ctx) { ruleEOFWorld(c, "C08.R1") }},
@@ -194,6 +195,7 @@ func init() {
 			{Name: "C08.R11", Run: func(c *Ctx) { ruleLocksReleased(c, "C08.R11", []string{"ast", "bytecode", "libvore"}) }},
 			{Name: "C08.R12", Run: func(c *Ctx) { ruleArrayIndexBounded(c, "C08.R12", []string{"ast", "bytecode", "libvore", "ds"}) }},
 			{Name: "C08.R13", Run: func(c *Ctx) { ruleTokenListEndsAtEOF(c, "C08.R13") }},
+			{Name: "C08.R14", Run: func(c *Ctx) { ruleNoUnguardedDivision(c, "C08.R14") }},
 		},
 	})
 	register(&Property{
